@@ -3,6 +3,7 @@
 from __future__ import annotations
 
 import ast
+import re
 import itertools
 
 from .. import norm
@@ -437,9 +438,12 @@ def run(ctx: Ctx) -> None:
     ctx.call(routing, "9")
     ctx.call(chain_siblings, "10")
     ctx.call(fresh_checksums, "11")
+    ctx.call(root_transfer_siblings, "12")
 
 
 MUTANTS = [
+    ("root-removed-elsewhere", POOL, "        dst_image_name = os.path.join(shared_pool, image_base_names)\n        cls.ops.delete(dst_image_name, params)", "        dst_image_name = os.path.join(shared_pool, os.path.basename(target_image))\n        cls.ops.delete(dst_image_name, params)", "12p"),
+    ("set-root-downloads", POOL, "        cls.ops.upload(target_image, dst_image_name, params)", "        cls.ops.download(target_image, dst_image_name, params)", "12"),
     ("own-cache-breaks-get", POOL, "            source_scope = cls.get_source_scope(source_path, source_params, params)\n            if source_scope == \"own\" or source_scope not in scopes:\n                continue\n            logging.debug(f\"Choosing {source} as the get source to use\")",
      "            source_scope = cls.get_source_scope(source_path, source_params, params)\n            if source_scope == \"own\":\n                break\n            if source_scope not in scopes:\n                continue\n            logging.debug(f\"Choosing {source} as the get source to use\")", "3"),
     ("refusal-only-for-shared", POOL, "            cls._set(params, object)\n        else:\n            local_state_exists", "            cls._set(params, object)\n        elif params[\"pool_scope\"] == \"shared\":\n            local_state_exists", "7"),
@@ -517,6 +521,41 @@ def chain_siblings(ctx: Ctx, rule: str) -> None:
     whiles = [x for x in ast.walk(f.node) if isinstance(x, ast.While)]
     ok4 = len(dels) == 2 and not whiles and "get_dependency" not in ast.unparse(f.node)
     ctx.record(rule + "u", "COUNT", f.ref, "transport.unset deletes the state's own files only (its backing chain is preserved)", ok4, {}, "" if ok4 else "removing a pool state also touches its backing chain (or not all of its own files)")
+
+
+def root_transfer_siblings(ctx: Ctx, rule: str) -> None:
+    """get_root / set_root / unset_root of the image transport address the same pool file and move it in the right direction."""
+    paths = {}
+    for op, call, nargs in (("get_root", "download", 3), ("set_root", "upload", 3), ("unset_root", "delete", 2)):
+        f = ctx.repo.func(f"{POOL}:QCOW2ImageTransfer.{op}")
+        ctx.touch(f.ref)
+        d = {}
+        for s_ in f.node.body:
+            if isinstance(s_, ast.Assign) and len(s_.targets) == 1:
+                d[ast.unparse(s_.targets[0])] = ast.unparse(s_.value)
+        ops = [c for c in calls_in(f.node) if isinstance(c.func, ast.Attribute) and ast.unparse(c.func.value) == "cls.ops"]
+        ok = len(ops) == 1 and call_name(ops[0]) == call and len(ops[0].args) == nargs
+        pool_arg = None
+        if ok:
+            args = [ast.unparse(a) for a in ops[0].args]
+            pool_arg = args[-2]
+            ok = args[-1] == "params" and (nargs == 2 or args[0] == "target_image") and d.get("target_image") == "cls.get_image_path(params)"
+
+            def expand(name, depth=0):
+                v = d.get(name)
+                if v is None or depth > 3:
+                    return name
+                out = v
+                for k in sorted(d, key=len, reverse=True):
+                    if k != name and re.search(rf"\b{re.escape(k)}\b", out):
+                        out = re.sub(rf"\b{re.escape(k)}\b", "(" + expand(k, depth + 1) + ")", out)
+                return out
+            paths[op] = expand(pool_arg)
+        ctx.record(rule, "SIBLING", f.ref, f"{op}: exactly one pool operation, cls.ops.{call}(" + ("the image path, " if nargs == 3 else "") + "the pool path, params)", ok,
+                   {"call": ast.unparse(ops[0])[:120] if ops else None}, "" if ok else f"{op} of the image transport no longer performs one {call} of the image")
+    same = len(paths) == 3 and len(set(paths.values())) == 1
+    ctx.record(rule + "p", "SIBLING", f"{POOL}:QCOW2ImageTransfer.get_root / set_root / unset_root", "all three address the same pool file: ':' + shared_pool / <vm> / basename(image path)", same,
+               {"pool_paths": paths}, "" if same else f"the root state is fetched, stored and removed under different pool paths: {paths}")
 
 
 def fresh_checksums(ctx: Ctx, rule: str) -> None:
